@@ -787,7 +787,12 @@ def run_obligation(ob, seed=0, timeout_scale=1.0):
                         if _concrete_probe(ob, p, penv, res, 'path-model-probe'):
                             nv += 1
                     tries = 0
-                    while nv < ob.nvalid and tries < 12 and not res['violations']:
+                    t_probe = time.time()
+                    # at least nvalid on-path probes; keep probing (cheap) up to ~2 s / 10 probes
+                    want = max(ob.nvalid, 10 if pi_ < 4 else ob.nvalid)
+                    while nv < want and tries < 4 * want and not res['violations']:
+                        if nv >= ob.nvalid and time.time() - t_probe > 2.0:
+                            break
                         tries += 1
                         env = sample_env(ob, p.sess.specs, rng)
                         if _concrete_probe(ob, p, env, res, 'random-probe'):
@@ -819,6 +824,7 @@ def run_obligation(ob, seed=0, timeout_scale=1.0):
                         if okb:
                             for nm, _ in grp:
                                 pre[nm] = ('unsat', round(secs / len(grp), 3), eng)
+                probed_more = False
                 for name, claim in p.sess.claims:
                     if len(res['violations']) >= 2:
                         break
@@ -844,8 +850,20 @@ def run_obligation(ob, seed=0, timeout_scale=1.0):
                         sample_claims.append(dict(claim=name, path_decisions=len(c.decisions),
                                                   n_constraints=len(cons),
                                                   smt=txt if len(txt) < 400 else txt[:400] + '...'))
+                    if verdict == 'unknown' and not probed_more and ob.nvalid:
+                        # undecided: a burst of float probes of the real code on this path
+                        probed_more = True
+                        for _ in range(40):
+                            env = sample_env(ob, p.sess.specs, rng)
+                            _concrete_probe(ob, p, env, res, 'random-probe-after-unknown')
+                            if res['violations']:
+                                break
+                        if res['violations']:
+                            entry['verdict'] = 'unknown'
+                            res['claims'].append(entry)
+                            break
                     if verdict == 'unknown' and ob.witness:
-                        model = solve.witness_search(c, z3.Not(claim), 4000, seed)
+                        model = solve.witness_search(c, z3.Not(claim), 3000, seed, tries=10)
                         res['queries'] += 1
                         if model is not None:
                             verdict = 'sat'
